@@ -119,7 +119,8 @@ fn main() {
                         let value = it.next().unwrap_or("");
                         let tree = it.next().unwrap_or("");
                         let valid = it.next().unwrap_or("");
-                        format!("ok\t{value}\t{tree}\t{valid}")
+                        let tokens = it.next().unwrap_or("");
+                        format!("ok\t{value}\t{tree}\t{valid}\t{tokens}")
                     }
                     Ok(Outcome::Err(s)) => format!("err\t{s}"),
                     Ok(Outcome::Lex(s)) => format!("lex\t{}", ser::hex(s.as_bytes())),
